@@ -11,12 +11,14 @@ def apply(ctx, W):
     fn, u = fn_into_verus(ctx, fw, "gcd", ret="r", tags=("C12", "C03"), ensures=[
         ("(a != 0 || b != 0) ==> r != 0", ("C12",), "gcd-nonzero"),
         ("r != 0 ==> divides(r as nat, a as nat) && divides(r as nat, b as nat)", ("C03",), "gcd-divides"),
+        ("r == spec_gcd(a as nat, b as nat)", ("C03",), "gcd-is-euclid"),
     ])
     lp = fw.loop(fn, 1)
     ghost(ctx, fw, u, rules.before(fw, lp), "let ghost a0 = a; let ghost b0 = b;")
     loop_spec(ctx, fw, u, lp, tags=("C12",), invariants=[
         "(a0 != 0 || b0 != 0) ==> (a != 0 || b != 0)",
         "forall|d: nat| d > 0 ==> (#[trigger] common_divisor(d, a as nat, b as nat) <==> common_divisor(d, a0 as nat, b0 as nat))",
+        "spec_gcd(a as nat, b as nat) == spec_gcd(a0 as nat, b0 as nat)",
     ], decreases="b")
     ghost(ctx, fw, u, rules.body_start(lp), """proof {
             assert forall|d: nat| d > 0 implies (#[trigger] common_divisor(d, b as nat, (a % b) as nat) <==> common_divisor(d, a0 as nat, b0 as nat)) by {
@@ -37,6 +39,7 @@ def apply(ctx, W):
     c = rules.closure_of_call(fw, l, "try_fold")
     rules.outline_closure_body(ctx, fw, c, "lcm_step__v", "acc: usize, x: usize", "acc, x", "Option<usize>", tags=("C12", "C03"), vis="pub(crate) ", ensures=[
         ("(acc == 0 || x == 0) ==> res == Some(0usize)", ("C03",), "lcm-step-zero"),
+        ("res == spec_lcm_step(acc, x)", ("C03",), "lcm-step-spec"),
         ("acc != 0 && x != 0 && res is Some ==> res->0 >= acc && res->0 >= x", ("C03",), "lcm-step-bounds"),
         ("acc != 0 && x != 0 && res is Some ==> res->0 % acc == 0 && res->0 % x == 0", ("C03",), "lcm-step-common-multiple"),
     ])
